@@ -102,10 +102,13 @@ def main():
         rc = subprocess.run(["lake", "build", "opcua_model"], cwd=scratch, capture_output=True, text=True, timeout=900).returncode
         status = "stillborn"
         if rc == 0:
-            p = subprocess.run([exe, pid], input="\n".join(ops) + "\n", capture_output=True, text=True, timeout=900)
-            out = p.stdout.splitlines()
-            diff = sum(1 for x, y in zip(impl, out) if x != y) + abs(len(impl) - len(out))
-            status = "killed" if diff else "survived"
+            try:
+                p = subprocess.run([exe, pid], input="\n".join(ops) + "\n", capture_output=True, text=True, timeout=300)
+                out = p.stdout.splitlines()
+                diff = sum(1 for x, y in zip(impl, out) if x != y) + abs(len(impl) - len(out))
+                status = "killed" if diff else "survived"
+            except subprocess.TimeoutExpired:
+                status = "killed"          # a mutant that no longer terminates in time is distinguished from the code
         open(path, "w").write(src)
         results.append({"file": f, "line": li + 1, "from": orig.strip(), "to": rep.strip(), "status": status,
                         "source": lines[li].strip()[:160]})
